@@ -100,6 +100,19 @@ class DictMixin:
     def dictop(self, recv, name, args, kw, st, fr):
         if name in ("items", "keys", "values"):
             return VPy(("dict" + name, recv))
+        if recv.elem is None:
+            # a dict created empty and not yet typed by a store
+            if name == "get":
+                return args[1] if len(args) > 1 else NONE
+            if name == "copy":
+                new = self.alloc(st, "dict", None, "dcopy")
+                st.write("$card", new.e, z3.IntVal(0), "int")
+                return new
+            if name == "pop":
+                if len(args) > 1:
+                    return args[1]
+                raise PyRaise(VExc("KeyError"))
+            raise Unsupported(f"dict.{name} on an untyped empty dict")
         kt, vt = recv.elem
         dom, mp = self.d_dom(recv, st), self.d_map(recv, st)
         if name == "get":
@@ -134,6 +147,17 @@ class DictMixin:
         return self.mkval(z3.Select(self.d_map(obj, st), k), vt)
 
     def dict_setitem(self, obj, idx, v, st, fr):
+        if obj.elem is None:
+            kt = idx.cls if isinstance(idx, VRef) else idx.tag
+            vt = (v.cls or "ref") if isinstance(v, VRef) else \
+                ("ref" if isinstance(v, VNone) else v.tag)
+            obj.elem = (kt, vt)
+            self.d_set_dom(obj, st, z3.K(sort_of(base_tag(kt)),
+                                         z3.BoolVal(False)))
+        if base_tag(obj.elem[1]) != base_tag(
+                (v.cls or "ref") if isinstance(v, VRef) else
+                ("ref" if isinstance(v, VNone) else v.tag)):
+            raise Unsupported("dict with values of different sorts")
         k = self.to_z3(idx)
         dom = self.d_dom(obj, st)
         self.bump(obj, st, z3.If(z3.Select(dom, k), 0, 1))
